@@ -6,6 +6,7 @@ import (
 	"strings"
 
 	"github.com/mattn/go-runewidth"
+	"gopkg.in/yaml.v3"
 )
 
 // HarnessC16Echo: one scalar value of the full skeleton is replaced by L
@@ -141,4 +142,54 @@ func HarnessC16SnippetWide(L int) {
 		}
 		verifCheck(parts[1] == strings.Repeat(" ", sw)+"^"+strings.Repeat("~", uw), "indicator-differs-from-display-widths")
 	}
+}
+
+// HarnessC16TypeNames: names chosen by the user end up in the object types that
+// "is not defined in object type {...}" messages print: a matrix row key, a
+// matrix include key, a workflow_dispatch / workflow_call input name, a secret
+// name, a job output name — each a symbolic byte string — with a reference to
+// an undefined sibling next to it. No message may contain a raw line break.
+func HarnessC16TypeNames(L int) {
+	K := verifSymString("name", L)
+	s := yScalar
+	site := verifChoose("site", 6)
+	on := s("push")
+	var onNode *yaml.Node = on
+	matrix := yMap(s("r"), ySeq(s("1")))
+	jobOutputs := yMap(s("o"), s("v"))
+	ref := "matrix.nope"
+	switch site {
+	case 0:
+		matrix = yMap(s(K), ySeq(s("1")))
+	case 1:
+		matrix = yMap(s("r"), ySeq(s("1")), s("include"), ySeq(yMap(s(K), s("2"))))
+	case 2:
+		onNode = yMap(s("workflow_dispatch"), yMap(s("inputs"), yMap(s(K), yMap(s("type"), s("string")))))
+		ref = "inputs.nope"
+	case 3:
+		onNode = yMap(s("workflow_call"), yMap(s("inputs"), yMap(s(K), yMap(s("type"), s("string")))))
+		ref = "inputs.nope"
+	case 4:
+		onNode = yMap(s("workflow_call"), yMap(s("secrets"), yMap(s(K), yMap(s("required"), yTagged("!!bool", "false")))))
+		ref = "secrets.nope"
+	case 5:
+		jobOutputs = yMap(s(K), s("v"))
+		ref = "needs.j.outputs.nope"
+	}
+	doc := yDoc(yMap(s("on"), onNode, s("jobs"), yMap(
+		s("j"), yMap(s("runs-on"), s("ubuntu-latest"), s("strategy"), yMap(s("matrix"), matrix), s("outputs"), jobOutputs,
+			s("steps"), ySeq(yMap(s("run"), s("echo ${{ matrix.nope }} ${{ inputs.nope }} ${{ secrets.nope }}")))),
+		s("k"), yMap(s("needs"), ySeq(s("j")), s("runs-on"), s("ubuntu-latest"), s("steps"), ySeq(yMap(s("run"), s("echo ${{ needs.j.outputs.nope }}")))),
+	)))
+	_ = ref
+	verifPlace(doc, 1, 0)
+	errs := verifLintNode(doc, verifRulesNoDeprecated())
+	for _, e := range errs {
+		verifReach("diagnostic")
+		if e.Kind == "expression" {
+			verifReach("type-printed")
+		}
+		verifCheck(verifNot(verifMsgHasRawNewline(e.Message)), "raw-line-break-in-message")
+	}
+	verifReach("linted")
 }
